@@ -66,6 +66,20 @@ Theorem C04_api_no_orphan : forall (digest : vec -> dgst) (valid : vec -> bool),
   run_guarded digest valid c (init docs) ops = Some s -> no_orphan s.
 Proof. exact api_no_orphan. Qed.
 
+(* after ANY API history without mirror pokes (cache pokes allowed) no hot-tier mirror is stale:
+   every mirror entry carries the current canonical payload and token of its id, i.e. is a `Match`
+   (relies on bulk_load_cold_tier dropping the mirrors of the ids it loads, repo commit b64dfda;
+   used by C06: hot-tier k-NN candidates are live documents) *)
+Theorem C04_api_no_stale_mirror : forall (digest : vec -> dgst) (valid : vec -> bool),
+  (forall a b : vec, digest a = digest b -> a = b) ->
+  forall (c : config) (docs : list (N * vec * meta)) (ops : list op),
+  forallb no_hot_poke ops = true ->
+  let s := run digest valid c (init docs) ops in
+  forall (id : N) (h : hent), lookup id (hot s) = Some h ->
+  (exists r, lookup id (cold s) = Some r /\ h_vec h = c_vec r /\ h_tok h = (c_ver r, digest (c_vec r))) /\
+  canon_state digest s id (h_vec h) (h_tok h) = CMatch.
+Proof. exact api_no_stale_mirror. Qed.
+
 (* Known class (by design; engine test test_flush_hot_tier_repairs_missing_cold_record_from_mirror
    demands it): a mirror entry planted for an ABSENT id is resurrected by a drain, i.e. without
    `no_orphan` a drain does change the canonical store. *)
@@ -82,11 +96,12 @@ Proof.
 Qed.
 
 (* Non-vacuity: the premises are satisfiable (identity digest; the empty engine has no orphan and a
-   guarded history exists), and a concrete history with a stale mirror (bulk load bypassing the hot
-   tier) and a planted stale L1a entry is answered from the cold tier with both copies scrubbed. *)
+   guarded history exists), and a concrete history (insert, bulk load over it — which drops the mirror —, a planted stale L1a entry
+   and a planted stale mirror) is answered from the cold tier with both stale copies scrubbed. *)
 Definition ex_cfg := mkCfg 1 1 false 100 4.
 Definition ex_ops : list op :=
-  [OInsert 1%N [1%Z] []; OBulkLoad [(1%N, [2%Z], [])]; OPokeL1 false 1%N [1%Z] (1%N, [1%Z])].
+  [OInsert 1%N [1%Z] []; OBulkLoad [(1%N, [2%Z], [])]; OPokeL1 false 1%N [1%Z] (1%N, [1%Z]);
+   OPokeHot 1%N [1%Z] [] (1%N, [1%Z])].
 Example C04_nonvacuous :
   (forall a b : vec, id_digest a = id_digest b -> a = b) /\
   no_orphan (init []) /\
@@ -104,4 +119,5 @@ Print Assumptions C04_refines_map.
 Print Assumptions C04_history_latest_write_wins.
 Print Assumptions C04_drain_audit_neutral.
 Print Assumptions C04_api_no_orphan.
+Print Assumptions C04_api_no_stale_mirror.
 Print Assumptions C04_orphan_repair_refuted.
